@@ -172,6 +172,17 @@ template <class S> void sequences(vf::Ctx& c, const char* tname, int depth, int 
       long double d = x.template cast<long double>().allFinite() ? (x - xf).template cast<long double>().norm() : HUGE_VALL;
       long double tol = 256 * eps * 9 * (1 + xf.template cast<long double>().norm());
       if (!(d <= tol)) { c.violation("LeastSquares.dependsOnHistory", params(), vf::JO().num("difference_vs_fresh", d).num("tol", tol).done()); break; }
+      // solving is also a query on the loaded problem: the unweighted paths leave J and Y untouched, so the same problem solved again by the other
+      // path and then by the first one gives the answers of a fresh solver (weightedEstimate() rescales J and Y in place and is not asked twice)
+      if (o.solver != 2) {
+        Vec x2 = solve(ls, P, 1 - o.solver), xf2 = solve(fresh, P, 1 - o.solver);
+        Vec x3 = solve(ls, P, o.solver);
+        for (int j = 0; j < o.p; ++j) { c.obs((double)x2(j)); c.obs((double)x3(j)); }
+        long double d2 = x2.template cast<long double>().allFinite() ? (x2 - xf2).template cast<long double>().norm() : HUGE_VALL;
+        long double d3 = x3.template cast<long double>().allFinite() ? (x3 - xf).template cast<long double>().norm() : HUGE_VALL;
+        long double tol2 = 256 * eps * 9 * (1 + xf2.template cast<long double>().norm());
+        if (!(d2 <= tol2) || !(d3 <= tol)) { c.violation("LeastSquares.solveAgain.dependsOnHistory", params(), vf::JO().num("other_path_difference_vs_fresh", d2).num("same_path_again_difference_vs_fresh", d3).num("tol", tol).done()); break; }
+      }
       uint64_t h = 5; h = vf::mix64(h, ls.getJ().rows()); h = vf::mix64(h, ls.getJ().cols()); h = vf::mix64(h, o.p); h = vf::mix64(h, o.prec); states.insert(h);
     }
 #undef ls
